@@ -61,6 +61,14 @@ def enumerate_cases(tier, seed):
                         continue
                     for en in ("EAGAIN", "EINVAL", "ENOMEM"):
                         yield {"chroot": ch, "setuid": su, "setgid": sg, "fail": c, "real": False, "ids": 0, "errno": en}
+                # the configured account may be one whose numeric id is 0 ('root', 'toor', group 'wheel') or whose primary group
+                # differs from its uid: the calls are made all the same, with the ids the look-ups returned
+                if su or sg:
+                    for uid, gid in ((0, 0), (0, GID), (UID, 0), (5, 60)):
+                        yield {"chroot": ch, "setuid": su, "setgid": sg, "fail": None, "real": False, "ids": 0, "uid": uid, "gid": gid}
+                        for c in calls:
+                            if c in ("setgroups", "setregid", "setreuid"):
+                                yield {"chroot": ch, "setuid": su, "setgid": sg, "fail": c, "real": False, "ids": 0, "uid": uid, "gid": gid}
                 if ch:
                     # the directory the server is started from: the root itself, below it, and a sibling whose name extends
                     # the root's name ('<root>-private')
@@ -102,11 +110,13 @@ def _write_conf(base, root, case):
 
 
 class _Patches:
-    def __init__(self, trace, fail, ids=0, errname="EPERM"):
+    def __init__(self, trace, fail, ids=0, errname="EPERM", uid=None, gid=None):
         self.trace = trace
         self.fail = fail
         self.ids = ids
         self.errname = errname
+        self.uid = UID if uid is None else uid
+        self.gid = GID if gid is None else gid
         self.saved = []
 
     def _set(self, obj, name, val):
@@ -132,8 +142,8 @@ class _Patches:
             self._set(os, n, rec(n))
         for n in ("getuid", "geteuid", "getgid", "getegid"):
             self._set(os, n, (lambda v: (lambda: v))(self.ids))
-        self._set(pwd, "getpwnam", rec("getpwnam", ("nobody", "x", UID, GID, "", "/", "")))
-        self._set(grp, "getgrnam", rec("getgrnam", ("nogroup", "x", GID, [])))
+        self._set(pwd, "getpwnam", rec("getpwnam", ("nobody", "x", self.uid, 7777, "", "/", "")))
+        self._set(grp, "getgrnam", rec("getgrnam", ("nogroup", "x", self.gid, [])))
         o_get_server, o_ssl = initialization.get_server, initialization.init_ssl_context
         servers = self.servers = []
 
@@ -176,6 +186,8 @@ class _Patches:
 
 
 def _predicates(case, trace, raised, server, root):
+    wuid = UID if case.get("uid") is None else case["uid"]
+    wgid = GID if case.get("gid") is None else case["gid"]
     fails = []
     names = [t[0] for t in trace]
     priv_idx = [i for i, n in enumerate(names) if n in PRIV]
@@ -242,15 +254,15 @@ def _predicates(case, trace, raised, server, root):
     if case["setgid"]:
         if "setregid" not in pn:
             F("setregid-missing", "group is not changed")
-        elif privs[pn.index("setregid")][1:] != (GID, GID):
-            F("setregid-args", "setregid%r, expected (%d, %d)" % (privs[pn.index("setregid")][1:], GID, GID))
+        elif privs[pn.index("setregid")][1:] != (wgid, wgid):
+            F("setregid-args", "setregid%r, expected (%d, %d)" % (privs[pn.index("setregid")][1:], wgid, wgid))
     elif "setregid" in pn:
         F("unexpected-setregid", "setregid called without setgid option")
     if case["setuid"]:
         if "setreuid" not in pn:
             F("setreuid-missing", "user is not changed")
-        elif privs[pn.index("setreuid")][1:] != (UID, UID):
-            F("setreuid-args", "setreuid%r, expected (%d, %d)" % (privs[pn.index("setreuid")][1:], UID, UID))
+        elif privs[pn.index("setreuid")][1:] != (wuid, wuid):
+            F("setreuid-args", "setreuid%r, expected (%d, %d)" % (privs[pn.index("setreuid")][1:], wuid, wuid))
         if "setregid" in pn and "setreuid" in pn and pn.index("setreuid") < pn.index("setregid"):
             F("order:setreuid-before-setregid", "the user is changed before the group (the group change would then be refused)")
         if case["chroot"] and "chroot" in pn and "setreuid" in pn and pn.index("setreuid") < pn.index("chroot"):
@@ -402,7 +414,7 @@ def check_case(case, ctx):
         oldcwd = os.getcwd()
         if start:
             os.chdir(start)
-        with _Patches(trace, case["fail"], case.get("ids", 0), case.get("errno", "EPERM")):
+        with _Patches(trace, case["fail"], case.get("ids", 0), case.get("errno", "EPERM"), case.get("uid"), case.get("gid")):
             try:
                 server = initialization.initialize(conf)
             except BaseException as e:
